@@ -34,33 +34,77 @@ Theorem C14_envelope_roundtrip_V :
 Proof. exact V_roundtrip. Qed.
 Print Assumptions C14_envelope_roundtrip_V.
 
-(* VersionedAttestation carrying a validator index (< 2^64) *)
+(* VersionedAttestation carrying a validator index (< 2^64); [pre] = true is the fallback rule before
+   commit dd3af90, false the current one *)
 Theorem C14_envelope_roundtrip_Att :
-  forall (payload : Type) (ienc : N -> payload -> bytes) (idec : N -> bytes -> ires payload) ver idx p,
+  forall (payload : Type) (ienc : N -> payload -> bytes) (idec : N -> bytes -> ires payload) pre ver idx p,
   ver < nver -> idx < 2 ^ 64 -> idec ver (ienc ver p) = IOk p ->
-  exists b, encAtt payload ienc (ver, Some idx, p) = Some b /\ decAtt payload idec b = Ok (ver, Some idx, p).
+  exists b, encAtt payload ienc (ver, Some idx, p) = Some b /\ decAtt payload idec pre b = Ok (ver, Some idx, p).
 Proof. exact Att_roundtrip_idx. Qed.
 Print Assumptions C14_envelope_roundtrip_Att.
 
-(* VersionedAttestation without validator index (legacy wire form): round trip when bytes 4..8 of
-   the inner encoding (the low half of data.slot) do not read 20 ... *)
+(* VersionedAttestation without validator index (legacy wire form), current rule (legacy reading on any
+   failure of the indexed reading): the round trip holds whenever the indexed reading of the legacy
+   bytes does not succeed ... *)
 Theorem C14_envelope_roundtrip_Att_legacy :
   forall (payload : Type) (ienc : N -> payload -> bytes) (idec : N -> bytes -> ires payload) ver p b,
   ver < nver -> idec ver (ienc ver p) = IOk p ->
   encAtt payload ienc (ver, None, p) = Some b ->
-  (8 <= length (ienc ver p))%nat ->
-  (forall s, slice (ienc ver p) 4 8 = Some s -> le_dec s <> 20) ->
-  decAtt payload idec b = Ok (ver, None, p).
-Proof. exact Att_roundtrip_noidx_slot. Qed.
+  (forall r, decI payload idec b <> Ok r) ->
+  decAtt payload idec false b = Ok (ver, None, p).
+Proof. exact Att_roundtrip_noidx. Qed.
 Print Assumptions C14_envelope_roundtrip_Att_legacy.
 
-(* ... and not in general: the statement without that guard is false (witness). *)
-Theorem C14_envelope_roundtrip_Att_legacy_refuted :
+(* ... in particular when bytes 4..8 of the inner encoding (the low half of data.slot) do not read 20
+   (this guard is enough under both rules), *)
+Theorem C14_envelope_roundtrip_Att_legacy_slot :
+  forall (payload : Type) (ienc : N -> payload -> bytes) (idec : N -> bytes -> ires payload) pre ver p b,
+  ver < nver -> idec ver (ienc ver p) = IOk p ->
+  encAtt payload ienc (ver, None, p) = Some b ->
+  (8 <= length (ienc ver p))%nat ->
+  (forall s, slice (ienc ver p) 4 8 = Some s -> le_dec s <> 20) ->
+  decAtt payload idec pre b = Ok (ver, None, p).
+Proof. exact Att_roundtrip_noidx_slot. Qed.
+Print Assumptions C14_envelope_roundtrip_Att_legacy_slot.
+
+(* or when the inner decoder refuses what the indexed reading hands it (the bytes from 20 on). *)
+Theorem C14_envelope_roundtrip_Att_legacy_shift :
+  forall (payload : Type) (ienc : N -> payload -> bytes) (idec : N -> bytes -> ires payload) ver p b,
+  ver < nver -> idec ver (ienc ver p) = IOk p ->
+  encAtt payload ienc (ver, None, p) = Some b ->
+  (forall sfx q, slice b 20 (length b) = Some sfx -> idec ver sfx <> IOk q) ->
+  decAtt payload idec false b = Ok (ver, None, p).
+Proof. exact Att_roundtrip_noidx_shift. Qed.
+Print Assumptions C14_envelope_roundtrip_Att_legacy_shift.
+
+(* The guard is exact: when the indexed reading succeeds, the value returned carries a validator index,
+   so it is not the encoded one. *)
+Theorem C14_envelope_Att_legacy_misdecoded :
+  forall (payload : Type) (idec : N -> bytes -> ires payload) pre b ver idx q,
+  decI payload idec b = Ok (ver, idx, q) -> decAtt payload idec pre b = Ok (ver, Some idx, q).
+Proof. exact Att_noidx_misdecoded. Qed.
+Print Assumptions C14_envelope_Att_legacy_misdecoded.
+
+(* Before the repair (fallback only on an offset error) a value whose indexed reading fails in the
+   inner decoder was refused; the current rule decodes it (witness). *)
+Theorem C14_envelope_roundtrip_Att_legacy_refuted_before_fix :
   legacy_dec 4 (id_enc1 4 legacy_payload) = IOk legacy_payload /\
   exists b, encAtt bytes id_enc1 (4, None, legacy_payload) = Some b /\
-            decAtt bytes legacy_dec b = Err (EInner false).
-Proof. exact Att_legacy_roundtrip_refuted. Qed.
-Print Assumptions C14_envelope_roundtrip_Att_legacy_refuted.
+            decAtt bytes legacy_dec true b = Err (EInner false) /\
+            decAtt bytes legacy_dec false b = Ok (4, None, legacy_payload).
+Proof. exact Att_legacy_roundtrip_refuted_before_fix. Qed.
+Print Assumptions C14_envelope_roundtrip_Att_legacy_refuted_before_fix.
+
+(* What remains, and cannot be repaired without changing the wire format: the unguarded statement is
+   false, because a legacy encoding can be, byte for byte, the indexed encoding of another value
+   (witness; on the real types data.slot = 228 * 2^32 + 20 with >= 9 bytes of aggregation bits). *)
+Theorem C14_envelope_roundtrip_Att_legacy_refuted_ambiguous :
+  legacy_dec 4 (id_enc1 4 ambiguous_payload) = IOk ambiguous_payload /\
+  exists b, encAtt bytes id_enc1 (4, None, ambiguous_payload) = Some b /\
+            decAtt bytes legacy_dec false b = Ok (4, Some (12 + 228 * 2 ^ 32), [228;0;0;0; 1;2;3]) /\
+            encAtt bytes id_enc1 (4, Some (12 + 228 * 2 ^ 32), [228;0;0;0; 1;2;3]) = Some b.
+Proof. exact Att_legacy_roundtrip_refuted_ambiguous. Qed.
+Print Assumptions C14_envelope_roundtrip_Att_legacy_refuted_ambiguous.
 
 (* AttestationData and its attester-duty record *)
 Theorem C14_envelope_roundtrip_A :
@@ -79,7 +123,7 @@ Theorem C14_envelope_decode_total :
   (forall P idec b, decB P idec b <> Panic) /\
   (forall P idec b, decV P idec b <> Panic) /\
   (forall P idec b, decI P idec b <> Panic) /\
-  (forall P idec b, decAtt P idec b <> Panic) /\
+  (forall P idec pre b, decAtt P idec pre b <> Panic) /\
   (forall D ddec b, decA D ddec b <> Panic) /\
   (forall b, decD b <> Panic).
 Proof.
@@ -162,7 +206,7 @@ Theorem C14_dispatch_total_unsigned :
 Proof. exact udispatch_total. Qed.
 Print Assumptions C14_dispatch_total_unsigned.
 
-(* A decoder that validates after the dispatch (the proposed repair) returns only usable values. *)
+(* The decoders validate after the dispatch (commit 83a4e02): they return only usable values. *)
 Theorem C14_dispatch_validated_usable :
   forall V (sdec : stype -> bytes -> option V) (usable : V -> bool) d b t v,
   validated V usable (sdispatch V sdec d b) = Some (t, v) ->
@@ -174,6 +218,18 @@ Proof.
          end).
 Qed.
 Print Assumptions C14_dispatch_validated_usable.
+
+Theorem C14_dispatch_validated_usable_unsigned :
+  forall V (udec : utype -> bytes -> option V) (usable : V -> bool) d b t v,
+  validated V usable (udispatch V udec d b) = Some (t, v) ->
+  In t (uallowed d) /\ udec t b = Some v /\ usable v = true.
+Proof.
+  intros V udec usable d b t v H.
+  exact (match validated_usable V usable _ t v H with
+         | conj H1 H2 => match udispatch_sound V udec d b t v H1 with conj A B => conj A (conj B H2) end
+         end).
+Qed.
+Print Assumptions C14_dispatch_validated_usable_unsigned.
 
 (* ---- deterministic: encoding is a function of the value; for sets, of the map and not of the order
         in which Go's map iteration lists it, hence equal sets give equal consensus hashes -------- *)
